@@ -25,6 +25,23 @@ CHECKS = {
    text='rename_gate / replace_inputs / remove_gate transitions of the exhaustive CircuitAPI exploration, universe circuits with one rewrite each, and random histories rich in replace_subcircuit (cut-bounded cones replaced by equivalent relabelled copies) are replayed into cirbo; TLC judges isomorphism under the label substitution, the cofactor identity over the remaining inputs, the removal rule, and function + well-formedness (or a documented error) after replacement.',
    note='Trusted: TLC, CircuitOps.DoRename as the meaning of "every reference follows", projection. Replacement subcircuits are equivalent by construction.',
    tech='TLA+ action properties evaluated by TLC on recorded rewrite calls generated from the TLC-explored API model'),
+
+ 'C03': dict(cat='model_checking', ref='5 (C03)',
+   text='Every pass (RRG with/without input removal, MUO, MDG, MEG, cleanup light/heavy) and random pipelines are applied to TLC-enumerated universe circuits over all 18 types (relabelled, non-topological storage, repeated/input/zero outputs) and seeded random circuits; TLC judges: argument projection unchanged, result is a new object, interface, truth table over the remaining inputs, size, well-formedness.',
+   note='Trusted: TLC, CircuitSem, projection. Bounded universe (2-3 inputs, <=3 gates) + random circuits up to 5 inputs / 24 gates.',
+   tech='TLC-enumerated circuits replayed into cirbo passes; recorded results validated by a TLC trace specification'),
+ 'C15': dict(cat='model_checking', ref='5 (C15)',
+   text='For TLC-enumerated universe circuits and random circuits with <=4 inputs ALL 3^n partial assignments are pushed through the three entry points; TLC judges soundness against every completion, one-step monotonicity and totality. GateLemmas.tla proves the same three statements exhaustively for the three-valued gate tables (arity<=4), so the circuit-level check only has to bind the tables and the traversal to the code.',
+   note='Trusted: TLC, GateSemantics/CircuitSem. Exhaustive over assignments, bounded over circuits.',
+   tech='TLA+ Kleene lemmas model-checked by TLC; recorded three-valued evaluations validated by a TLC trace specification'),
+ 'C18': dict(cat='model_checking', ref='5 (C18)',
+   text='Each pass is judged on its own postcondition by TLC (RRG: exactly the reachable gates + idempotence; MDG: no structural duplicates; MEG: no two non-input gates with one truth table; MUO: the two hedged clauses); all pipeline leaf sequences up to length 3 (quick) / 4 (thorough) enumerated by TLC (Pipelines.tla) are built in five composition shapes and compared with applying the constituents one after another.',
+   note='Trusted: TLC, JudgePass. Pipeline equality is Circuit.__eq__.',
+   tech='TLC-enumerated circuits and pipelines replayed into cirbo; postconditions evaluated by a TLC trace specification'),
+ 'C20': dict(cat='model_checking', ref='5 (C20)',
+   text='dfs/bfs (both directions, default and explicit start sets, hook combinations, topsort_unvisited) and both top_sort directions are run on TLC-enumerated DAGs and random circuits, check_circuit_has_no_cycles on deliberately cyclic netlists; the recorded event sequences are accepted or rejected by the abstract traversal specification (reachable set once, enter before exit, post-order exits, unvisited = complement in topological order) evaluated by TLC.',
+   note='Trusted: TLC, JudgeC20, event recording by hook closures.',
+   tech='abstract traversal specification in TLA+; recorded hook/yield traces validated by TLC'),
 }
 PENDING = 'check not built yet in this round (work in progress; see DESIGN.md section 5)'
 m = {
